@@ -6,6 +6,7 @@ CONSTANTS
   MethodExcluded = FALSE
   PurgeEvictsLive = FALSE
   ExpiresIgnored = TRUE
+  RejectUnpins = FALSE
   MaxOps = 8
   MaxTimeouts = 1
 VIEW PropView
